@@ -98,3 +98,15 @@ impl Not for PatternType {
         Self(!self.0)
     }
 }
+
+/// Verification hooks (`--cfg rosu_pp_verif`): raw flag bits.
+#[cfg(rosu_pp_verif)]
+impl PatternType {
+    pub const fn verif_bits(self) -> u16 {
+        self.0
+    }
+
+    pub const fn verif_from_bits(bits: u16) -> Self {
+        Self(bits)
+    }
+}
